@@ -190,11 +190,13 @@ package regattaserver
 //@   modifies nothing
 // ActiveTable.Snapshot: the state machine writes the pairs of one point-in-time view into the writer
 // and answers with the applied index of that same view (fsm.commandSnapshot, C07.capture.*)
+// (ghost snapIdx of the writer: the applied index of the view whose pairs it was just given)
+//@ ghostfield any.snapIdx uint64
 //@ func table.(*ActiveTable).Snapshot
 //@   assumed
 //@   results resp, err
-//@   ensures err == nil ==> resp != nil && fresh(resp)
-//@   modifies writer.sdata, writer.slen, writer.nmsg, writer.msg
+//@   ensures err == nil ==> resp != nil && fresh(resp) && writer.snapIdx == resp.Index
+//@   modifies writer.sdata, writer.slen, writer.nmsg, writer.msg, writer.snapIdx
 //@ func (*SnapshotServer).Stream$1
 //@   requires *sf != nil && (*sf).w != nil && (*sf).File != nil
 //@   modifies (*sf).w.flushed, (*sf).w.busy
@@ -203,7 +205,7 @@ package regattaserver
 // is a DUMMY command whose leader index is the index the table's snapshot answered with.
 //@ func (*SnapshotServer).Stream
 //@   requires s != nil && s.Tables != nil && req != nil && srv != nil
-//@   before snapshot.(*snapshotFile).Write assert [C07.final] cmdKind(p) == 2 && hasLI(p) && liVal(p) == resp.Index
+//@   before snapshot.(*snapshotFile).Write assert [C07.final+C05] cmdKind(p) == 2 && hasLI(p) && liVal(p) == sf.snapIdx      // the index of the captured view - not one read before or after the capture
 //@   before bufio.NewReaderSize assert [C07.stream.rewound+C05+C18] typeIs(rd, *os.File) && asType(rd, *os.File) == sf.File && sf.w.flushed && sf.File.rest == sf.File.whole
 //@   modifies nothing
 
@@ -277,11 +279,13 @@ package regattaserver
 //@   assuming shOf(asType(lr, *logreader.Cached), clusterID) != nil ==> shOf(asType(lr, *logreader.Cached), clusterID).cache != nil && cacheInv(shOf(asType(lr, *logreader.Cached), clusterID).cache) && shOf(asType(lr, *logreader.Cached), clusterID).cache.shard == clusterID
 //@   assuming shOf(asType(lr, *logreader.Cached), clusterID) != nil && len(shOf(asType(lr, *logreader.Cached), clusterID).cache.buffer) > 0 ==> shOf(asType(lr, *logreader.Cached), clusterID).cache.buffer[len(shOf(asType(lr, *logreader.Cached), clusterID).cache.buffer)-1].Index < logRange.LastIndex
 //@   assuming shOf(asType(lr, *logreader.Cached), clusterID) != nil && len(shOf(asType(lr, *logreader.Cached), clusterID).cache.buffer) > 0 ==> logFirst(clusterID) <= shOf(asType(lr, *logreader.Cached), clusterID).cache.buffer[0].Index
+// (ghost appliedRead: the applied index most recently read from a table)
+//@ ghostfield any.appliedRead uint64
 //@ func table.(*ActiveTable).LocalIndex
 //@   assumed
 //@   results r, err
-//@   ensures err == nil ==> r != nil
-//@   modifies nothing
+//@   ensures err == nil ==> r != nil && world.appliedRead == r.Index
+//@   modifies world.appliedRead
 //@ func regattapb.(*ReplicateRequest).GetTable
 //@   assumed
 //@   modifies nothing
@@ -299,6 +303,7 @@ package regattaserver
 //@   params st, m
 //@   results err
 //@   requires m != nil
+//@   requires [C06.stream.applied] !typeIs(m.Response, *regattapb.ReplicateResponse_ErrorResponse) ==> m.LeaderIndex == world.appliedRead      // every batch - the closing empty one included - carries the applied index as last read
 //@   requires [C06.stream.contig] isCmds(m) ==> forall j int :: 0 <= j && j < len(cmdsOf(m)) ==> cmdsOf(m)[j] != nil && cmdsOf(m)[j].LeaderIndex == st.expect + uint64(j) && cmdsOf(m)[j].Command != nil && cmdsOf(m)[j].Command.LeaderIndex != nil && *cmdsOf(m)[j].Command.LeaderIndex == cmdsOf(m)[j].LeaderIndex
 //@   ensures err == nil && isCmds(m) ==> st.expect == old(st.expect) + uint64(len(cmdsOf(m)))
 //@   ensures !(err == nil && isCmds(m)) ==> st.expect == old(st.expect)
@@ -321,8 +326,9 @@ package regattaserver
 //@   requires l != nil && l.Tables != nil && l.LogReader != nil && l.Log != nil && req != nil && server != nil
 //@   requires [fresh.stream] server.expect == req.LeaderIndex
 //@   requires [raft] forall s uint64, i uint64 :: logAt(s, i).Type == 2 ==> len(logAt(s, i).Cmd) >= 1
-//@   modifies server.expect, world.clock, allfields(logreader.cache), allelems(raftpb.Entry)
+//@   modifies server.expect, world.clock, world.appliedRead, allfields(logreader.cache), allelems(raftpb.Entry)
 //@   loop 0 invariant l.Tables == old(l.Tables) && l.LogReader == old(l.LogReader) && l.Log == old(l.Log) && ctx != nil
+//@   loop 0 invariant appliedIndex != nil && appliedIndex.Index == world.appliedRead
 //@   loop 0 invariant [C06.stream.next] logRange.FirstIndex == server.expect && 1 <= logRange.FirstIndex && logRange.FirstIndex <= logRange.LastIndex
 //@   loop 1 invariant -1 <= rangeindex && rangeindex < len(entries) && len(commands) == rangeindex + 1 && fresh(commands) && logRange.FirstIndex == server.expect
 //@   loop 1 invariant forall j int :: 0 <= j && j <= rangeindex ==> commands[j] != nil && commands[j].LeaderIndex == entries[j].Index && commands[j].Command != nil && commands[j].Command.LeaderIndex != nil && *commands[j].Command.LeaderIndex == entries[j].Index
